@@ -7,8 +7,8 @@ CONSTANTS
   DelAmts = {1, 333, 1000, 3001}
   MinSelf = 100
   MinSpec = 1000
-  Fixed = FALSE
-  MaxOps = 14
+  Fixed = TRUE
+  MaxOps = 16
   GenHist = TRUE
 INIT Init
 NEXT GenNext
